@@ -37,6 +37,30 @@ Proof.
   - injection E' as <-. exists (line_length c). repeat split; auto; lia.
 Qed.
 
+(* MD010: every line with a tab; with code_blocks off, never a line of a code block *)
+Lemma md010_exact_l ls lvs ln :
+  In ln (must (md010 true ls lvs)) <-> 1 <= ln <= length ls /\ has_tab_c (line_at ls ln) = true.
+Proof. unfold md010, only. cbn [must]. rewrite filter_In, lnums_in. tauto. Qed.
+
+Lemma md010_code_exempt_l ls lvs ln l :
+  leaf_at lvs ln = Some l -> is_code l = true -> ~ In ln (must (md010 false ls lvs)) /\
+  (In ln (open_ (md010 false ls lvs)) -> is_fenced l = true /\ (ln = lsl l \/ ln = lel l)).
+Proof.
+  intros E C. unfold md010. cbn [must open_]. rewrite !filter_In, E, C. cbn [negb]. split.
+  - intros [_ H]. discriminate.
+  - intros [_ H]. unfold is_fenced. destruct (lb l) as [? ?|? ? ?|? ? ?|? ? cs]; try discriminate. destruct cs as [|? ? ? ? closed]; try discriminate.
+    split; [reflexivity|]. apply orb_prop in H as [H|H]; [left; apply Nat.eqb_eq in H; exact H|].
+    apply andb_prop in H as [_ H]. right; apply Nat.eqb_eq in H; exact H.
+Qed.
+
+Lemma md010_outside_code_l ls lvs ln :
+  (forall l, leaf_at lvs ln = Some l -> is_code l = false) ->
+  (In ln (must (md010 false ls lvs)) <-> 1 <= ln <= length ls /\ has_tab_c (line_at ls ln) = true).
+Proof.
+  intros H. unfold md010. cbn [must]. rewrite !filter_In, lnums_in.
+  destruct (leaf_at lvs ln) as [l|] eqn:E; [rewrite (H l eq_refl)|]; cbn [negb]; tauto.
+Qed.
+
 (* MD009: exactly the lines outside code blocks whose number of trailing spaces is positive and (unless strict) not br_spaces *)
 Lemma md009_exact_l c ls lvs ln :
   In ln (must (md009 c ls lvs)) <->
